@@ -760,6 +760,145 @@ fn mode_allbuiltins(seed: u64, limit: usize) -> Vec<serde_json::Value> {
     fails
 }
 
+
+// ------------------------------------------------------------------ mode: flat (C08): serialisation round trips, bit-exact
+fn flat_terms() -> Vec<Term<DeBruijn>> {
+    let mut out: Vec<Term<DeBruijn>> = vec![];
+    for c in constant_pool() {
+        out.push(Term::Constant(Rc::new(c)));
+    }
+    let s = |x: &str| Constant::String(x.to_string());
+    let nested = vec![
+        Constant::ProtoList(Type::String, vec![s("a"), s("h\u{e9}")]),
+        Constant::ProtoList(Type::List(Rc::new(Type::String)), vec![Constant::ProtoList(Type::String, vec![s("x")])]),
+        Constant::ProtoPair(Type::Integer, Type::String, Rc::new(Constant::Integer(1.into())), Rc::new(s("p"))),
+        Constant::ProtoPair(Type::String, Type::ByteString, Rc::new(s("q")), Rc::new(Constant::ByteString(vec![1]))),
+        Constant::ProtoList(Type::Pair(Rc::new(Type::ByteString), Rc::new(Type::Unit)), vec![Constant::ProtoPair(Type::ByteString, Type::Unit, Rc::new(Constant::ByteString(vec![])), Rc::new(Constant::Unit))]),
+        Constant::ProtoList(Type::Unit, vec![Constant::Unit, Constant::Unit]),
+        Constant::ProtoList(Type::Bool, vec![]),
+        Constant::ByteString((0..=255u8).cycle().take(600).collect()),
+    ];
+    for c in nested {
+        out.push(Term::Constant(Rc::new(c)));
+    }
+    for tag in 0u8..=127 {
+        if let Ok(f) = DefaultFunction::try_from(tag) {
+            out.push(Term::Builtin(f));
+        }
+    }
+    let mut memo = std::collections::HashMap::new();
+    for size in 1..=4 {
+        for t in terms(size, 0, false, &mut memo).iter() {
+            if refcek::closed(t, 0) {
+                out.push(to_real_db(t));
+            }
+        }
+    }
+    out
+}
+fn mode_flat(_seed: u64, limit: usize) -> Vec<serde_json::Value> {
+    let mut fails = vec![];
+    let ts = flat_terms();
+    let mut n = 0;
+    for t in ts {
+        if fails.len() >= limit {
+            break;
+        }
+        n += 1;
+        for version in [(1u64, 0u64, 0u64), (1, 1, 0)] {
+            let prog = Program { version: (version.0 as usize, version.1 as usize, version.2 as usize), term: t.clone() };
+            let input = serde_json::json!({"program": prog.to_pretty().split_whitespace().collect::<Vec<_>>().join(" ").chars().take(300).collect::<String>()});
+            let r = std::panic::catch_unwind(std::panic::AssertUnwindSafe(|| {
+                let bytes = prog.to_flat().map_err(|e| format!("{e}"))?;
+                let back = Program::<DeBruijn>::from_flat(&bytes).map_err(|e| format!("decode: {e}"))?;
+                if back != prog {
+                    return Err(format!("decoded program differs: {}", back.to_pretty().split_whitespace().collect::<Vec<_>>().join(" ").chars().take(300).collect::<String>()));
+                }
+                let again = back.to_flat().map_err(|e| format!("{e}"))?;
+                if again != bytes {
+                    return Err("re-encoding the decoded program gives different bytes".to_string());
+                }
+                let hexs = prog.to_hex().map_err(|e| format!("{e}"))?;
+                let mut b1 = vec![];
+                let mut b2 = vec![];
+                let back2 = Program::<DeBruijn>::from_hex(&hexs, &mut b1, &mut b2).map_err(|e| format!("hex decode: {e}"))?;
+                if back2.to_hex().map_err(|e| format!("{e}"))? != hexs {
+                    return Err("hex -> program -> hex is not the identity".to_string());
+                }
+                Ok::<(), String>(())
+            }));
+            match r {
+                Err(_) => fails.push(fail("flat", "serialisation round trip panicked", input, "no panic".into(), "panic".into())),
+                Ok(Err(e)) if e.contains("not supported for flat") => {}
+                Ok(Err(e)) => fails.push(fail("flat", "flat/CBOR/hex round trip is not the identity", input, "same program, same bytes".into(), e)),
+                Ok(Ok(())) => {}
+            }
+        }
+    }
+    println!("BOUNDS mode=flat {n} programs: every constant of the pool, nested list/pair types over string/bytestring/unit, a 600-byte string, every builtin, all closed terms of size<=4; versions 1.0.0 and 1.1.0; flat, hex(cbor)");
+    fails
+}
+
+// ------------------------------------------------------------------ mode: shrinker (C16): the real Counterexample::simplify on synthetic deterministic fuzzers
+fn shortlex_le(a: &[u8], b: &[u8]) -> bool {
+    a.len() < b.len() || (a.len() == b.len() && a <= b)
+}
+fn mode_shrinker(seed: u64, limit: usize) -> Vec<serde_json::Value> {
+    use aiken_lang::test_framework::{Cache, Counterexample, Status};
+    use uplc::ast::Data;
+    let mut fails = vec![];
+    let mut rng = Rng(0x94D049BB133111EB ^ seed.wrapping_mul(0xBF58476D1CE4E5B9) | 1);
+    // a "fuzzer + property" is a deterministic function from the choice sequence to Keep(value) (property falsified),
+    // Ignore (property holds) or Invalid (not enough choices)
+    type Oracle = Box<dyn Fn(&[u8]) -> Status<pallas_primitives::conway::PlutusData>>;
+    let families: Vec<(&str, Box<dyn Fn(u8) -> Oracle>)> = vec![
+        ("sum of two choices > k", Box::new(|k| Box::new(move |c: &[u8]| { if c.len() < 2 { return Status::Invalid; } let s = c[0] as i64 + c[1] as i64; if s > k as i64 { Status::Keep(Data::integer(s.into())) } else { Status::Ignore } }))),
+        ("first - second > k (not symmetric)", Box::new(|k| Box::new(move |c: &[u8]| { if c.len() < 2 { return Status::Invalid; } let s = c[0] as i64 - c[1] as i64; if s > (k / 4) as i64 { Status::Keep(Data::list(vec![Data::integer((c[0] as i64).into()), Data::integer((c[1] as i64).into())])) } else { Status::Ignore } }))),
+        ("second - first > k (not symmetric)", Box::new(|k| Box::new(move |c: &[u8]| { if c.len() < 2 { return Status::Invalid; } let s = c[1] as i64 - c[0] as i64; if s > (k / 4) as i64 { Status::Keep(Data::list(vec![Data::integer((c[0] as i64).into()), Data::integer((c[1] as i64).into())])) } else { Status::Ignore } }))),
+        ("list with length prefix, some element > k", Box::new(|k| Box::new(move |c: &[u8]| { if c.is_empty() { return Status::Invalid; } let n = (c[0] % 5) as usize; if c.len() < 1 + n { return Status::Invalid; } let xs = &c[1..1 + n]; if xs.iter().any(|x| *x > k) { Status::Keep(Data::list(xs.iter().map(|x| Data::integer((*x as i64).into())).collect())) } else { Status::Ignore } }))),
+        ("constant fuzzer, always falsified", Box::new(|_k| Box::new(move |_c: &[u8]| Status::Keep(Data::integer(0.into()))))),
+        ("third choice odd and first >= k", Box::new(|k| Box::new(move |c: &[u8]| { if c.len() < 3 { return Status::Invalid; } if c[2] % 2 == 1 && c[0] >= k { Status::Keep(Data::integer((c[0] as i64 * 256 + c[2] as i64).into())) } else { Status::Ignore } }))),
+    ];
+    let mut n = 0;
+    for round in 0..400 {
+        if fails.len() >= limit {
+            break;
+        }
+        let (name, mk) = &families[round % families.len()];
+        let k = rng.below(200) as u8;
+        let len = 1 + rng.below(9) as usize;
+        let initial: Vec<u8> = (0..len).map(|_| rng.below(256) as u8).collect();
+        let oracle = mk(k);
+        let Status::Keep(v0) = oracle(&initial) else { continue };
+        n += 1;
+        let input = serde_json::json!({"fuzzer": name, "k": k, "initial_choices": initial});
+        let run = |initial: &Vec<u8>, v0: &pallas_primitives::conway::PlutusData| {
+            let o = mk(k);
+            let mut cex = Counterexample { value: v0.clone(), choices: initial.clone(), cache: Cache::new(move |c| o(c)) };
+            cex.simplify();
+            (cex.choices.clone(), cex.value.clone())
+        };
+        let r = std::panic::catch_unwind(std::panic::AssertUnwindSafe(|| (run(&initial, &v0), run(&initial, &v0))));
+        match r {
+            Err(_) => fails.push(fail("shrinker", "simplify panicked", input, "no panic".into(), "panic".into())),
+            Ok(((choices, value), second)) => {
+                if (choices.clone(), value.clone()) != second {
+                    fails.push(fail("shrinker", "shrinking is not a function of the choices and the code (two runs differ)", input.clone(), format!("{choices:?}"), format!("{:?}", second.0)));
+                }
+                match oracle(&choices) {
+                    Status::Keep(v) if v == value => {}
+                    other => fails.push(fail("shrinker", "reported counterexample is not regenerated by replaying its recorded choices / does not falsify the property", input.clone(), format!("Keep({value:?})"), format!("{:?}", matches!(other, Status::Keep(_))))),
+                }
+                if !shortlex_le(&choices, &initial) {
+                    fails.push(fail("shrinker", "simplified counterexample is larger in choice-sequence order than the first failing case", input.clone(), format!("<= {initial:?}"), format!("{choices:?}")));
+                }
+            }
+        }
+    }
+    println!("BOUNDS mode=shrinker {n} (fuzzer family x threshold x initial failing choice sequence of length 1..9) cases over 6 synthetic deterministic fuzzers; seed {seed}");
+    fails
+}
+
 // ------------------------------------------------------------------ mode: nopanic (C10)
 fn mode_nopanic(seed: u64, limit: usize) -> Vec<serde_json::Value> {
     let mut fails = vec![];
@@ -959,6 +1098,8 @@ fn main() {
             "corpus" => mode_corpus(seed, limit),
             "builtins" => mode_builtins(seed, limit),
             "nopanic" => mode_nopanic(seed, limit),
+            "flat" => mode_flat(seed, limit),
+            "shrinker" => mode_shrinker(seed, limit),
             "allbuiltins" => mode_allbuiltins(seed, limit),
             // the builtin grid, keeping only crashes (for the never-crash property a wrong value is not a violation)
             "builtins_np" => mode_builtins(seed, 1000).into_iter().filter(|f| f["what"].as_str().unwrap_or("").contains("panicked")).take(limit).collect(),
